@@ -11,7 +11,7 @@ from sa.report import Ctx
 
 from .common import generic_sweeps
 
-from .sat_common import SatRoles, _enclosing_block, check_add_sites, check_assumption_assertion, check_backtrack
+from .sat_common import SatRoles, _enclosing_block, check_add_sites, check_assumption_assertion, check_backtrack, check_heap_flags
 
 EXPLANATION = (
     "Decides structural necessary conditions of 'every returned assignment satisfies every clause / agrees with "
@@ -36,6 +36,7 @@ def run(ctx: Ctx):
     check_unassign_heap(ctx, roles)
     check_model_record(ctx, roles)
     check_assumption_assertion(ctx, roles, "C01-O6")
+    check_heap_flags(ctx, "C01-O7")
     generic_sweeps(ctx, skip_stutter_modules=("solvor/sat.py",))
 
 
@@ -251,6 +252,12 @@ def _v_rebuild_index(tree):
     M.replace_stmt(g, lambda s: M.src_is(s, "idx = len(clauses) + i"), M.stmts("idx = i"))
 
 
+def _v_flag_kept_on_skip(tree):
+    g = M.find_func(tree, "solve_sat.pick_var")
+    M.replace_stmt(g, lambda s: M.src_is(s, "in_heap[var] = False"), [])
+    M.replace_stmt(g, lambda s: isinstance(s, ast.Return) and M.src_is(s.value, "var"), lambda s: M.stmts("in_heap[var] = False") + [s])
+
+
 def _t_reformat(tree):
     pass
 
@@ -286,6 +293,7 @@ VARIANTS = [
     M.Variant("blocking clause / model skip the last variable", SAT, _v_blocking_partial, "C01-O4"),
     M.Variant("unassigned variable not re-inserted in the heap", SAT, _v_no_heap_reinsert, "C01-O5"),
     M.Variant("reduce_db rebuild registers clauses under their list position", SAT, _v_rebuild_index, "C01-O3"),
+    M.Variant("pick_var clears the in-heap flag only for the variable it returns (seed C01-D)", SAT, _v_flag_kept_on_skip, "C01-O7"),
     M.Variant("twin: reformat only", SAT, _t_reformat, None),
     M.Variant("twin: rename locals of the backtrack routine", SAT, _t_rename, None),
     M.Variant("twin: backtrack written as pop-and-cut loop", SAT, _t_pop_form, None),
